@@ -1284,7 +1284,10 @@ func (d *descendantOverDescendantQuery) Select(t iterator) NodeNavigator {
 				d.posit = 1
 				return d.currentNode
 			}
-			d.moveToFirstChild()
+			if !d.moveToFirstChild() {
+				// a node without children has no descendants: go on with the next input node
+				continue
+			}
 		} else if !d.moveUpUntilNext() {
 			continue
 		}
